@@ -41,6 +41,13 @@ func (h *parserHarness) Gen(r *Rand, tier string, clean bool) any {
 	for i := 0; i < n; i++ {
 		var toks []string
 		origin := ""
+		if r.Chance(0.06) {
+			// a long statement: list productions repeated far beyond what ordinary statements use
+			text, kind := longStatement(r)
+			c.Texts = append(c.Texts, text)
+			c.Origins = append(c.Origins, "long:"+kind)
+			continue
+		}
 		if r.Chance(0.7) {
 			st := genStmt(r, u, names, o, []int{40, 12, 12, 4, 4, 14, 10, 4})
 			if st.Kind == "select" && r.Chance(0.3) {
@@ -68,18 +75,56 @@ func (h *parserHarness) Gen(r *Rand, tier string, clean bool) any {
 	return c
 }
 
+// longStatement renders a statement whose list (triples, graphs, clauses,
+// HAVING terms) has many items; every such statement is derivable and meaningful.
+func longStatement(r *Rand) (string, string) {
+	var items []string
+	switch r.Intn(5) {
+	case 0, 1:
+		n := r.Range(30, 300)
+		for i := 0; i < n; i++ {
+			items = append(items, fmt.Sprintf(`/u<s%d> "p"@[] /u<o%d>`, i, i))
+		}
+		verb := []string{"insert data into", "delete data from"}[r.Intn(2)]
+		return verb + " ?g0 { " + strings.Join(items, " . ") + " };", "data"
+	case 2:
+		n := r.Range(30, 150)
+		for i := 0; i < n; i++ {
+			items = append(items, fmt.Sprintf("?g%d", i))
+		}
+		return []string{"create", "drop"}[r.Intn(2)] + " graph " + strings.Join(items, ", ") + ";", "graphs"
+	case 3:
+		n := r.Range(15, 80)
+		for i := 0; i < n; i++ {
+			items = append(items, fmt.Sprintf(`?s%d "p"@[] ?o%d`, i, i))
+		}
+		return "select ?s0 from ?g0 where { " + strings.Join(items, " . ") + " };", "clauses"
+	default:
+		n := r.Range(8, 60)
+		for i := 0; i < n; i++ {
+			items = append(items, "(?s = ?o)")
+		}
+		return `select ?s, ?o from ?g0 where { ?s "p"@[] ?o } having ` + strings.Join(items, " and ") + ";", "having"
+	}
+}
+
 func (h *parserHarness) Shrink(ci any) []any {
 	c := ci.(*ParserCase)
+	origins := c.Origins
+	if len(origins) != len(c.Texts) {
+		origins = make([]string, len(c.Texts))
+	}
 	var out []any
 	for i := range c.Texts {
-		d := &ParserCase{Texts: append(append([]string{}, c.Texts[:i]...), c.Texts[i+1:]...)}
+		d := &ParserCase{Texts: append(append([]string{}, c.Texts[:i]...), c.Texts[i+1:]...),
+			Origins: append(append([]string{}, origins[:i]...), origins[i+1:]...)}
 		out = append(out, d)
 	}
-	// shorten an aborted statement further
+	// shorten an aborted statement further (never a long statement: cut short it is no statement)
 	for i, tx := range c.Texts {
 		toks := tokSplit.Split(tx, -1)
-		if len(toks) > 2 {
-			d := &ParserCase{Texts: append([]string{}, c.Texts...)}
+		if len(toks) > 2 && !strings.HasPrefix(origins[i], "long:") {
+			d := &ParserCase{Texts: append([]string{}, c.Texts...), Origins: append([]string{}, origins...)}
 			d.Texts[i] = strings.Join(toks[:len(toks)-1], " ")
 			out = append(out, d)
 		}
@@ -154,6 +199,10 @@ func (h *parserHarness) Run(t *testing.T, ci any) *Outcome {
 			return v
 		}
 		kind := strings.ToLower(strings.SplitN(strings.TrimSpace(text), " ", 2)[0])
+		if i < len(c.Origins) && strings.HasPrefix(c.Origins[i], "long:") && wantErr != nil {
+			// beyond the history clause: list length is not part of the grammar
+			return mk("long-statement-rejected:"+strings.TrimPrefix(c.Origins[i], "long:"), "a fresh parser rejects a statement that only differs from an ordinary one in the length of its list: %v", wantErr)
+		}
 		switch {
 		case wantErr == nil && gotErr != nil:
 			return mk("valid-statement-rejected-after-history:"+kind, "a fresh parser accepts statement %d, the parser with history rejects it: %v", i, gotErr)
